@@ -15,7 +15,7 @@ Z3_TIMEOUT_MS = int(os.environ.get('PYVC_Z3_TIMEOUT_MS', '20000'))
 CVC5_TIMEOUT_MS = int(os.environ.get('PYVC_CVC5_TIMEOUT_MS', '30000'))
 CVC5_BIN = '/usr/bin/cvc5'
 RLIMIT_PER_MS = float(os.environ.get('PYVC_RLIMIT_PER_MS', '3000'))
-WALL_FACTOR = float(os.environ.get('PYVC_WALL_FACTOR', '12'))
+WALL_FACTOR = float(os.environ.get('PYVC_WALL_FACTOR', '4'))
 
 
 def _symbols(e, acc, seen):
@@ -203,6 +203,34 @@ def pool():
     return _pool
 
 
+def run_jobs(fn, jobs, stall_s):
+    """pool.imap_unordered that survives the death of a worker: multiprocessing.Pool replaces a worker that crashed (z3 can
+    segfault) but never delivers its task, so a plain imap would wait for ever.  Every job is submitted on its own; when nothing
+    has completed for `stall_s` seconds the jobs still outstanding are reported as `unknown` and the pool is rebuilt."""
+    p = pool()
+    pending = {}
+    for job in jobs:
+        pending[job[0]] = p.apply_async(fn, (job,))
+    last = time.time()
+    while pending:
+        done = [n for n, ar in pending.items() if ar.ready()]
+        if done:
+            last = time.time()
+            for n in done:
+                ar = pending.pop(n)
+                try:
+                    yield ar.get()
+                except Exception as e:      # an exception inside the worker is an `unknown`, never a verdict
+                    yield (n, 'unknown', None, 0, 'worker', 'exception: %r' % (e,))
+        elif time.time() - last > stall_s:
+            for n in list(pending):
+                yield (n, 'unknown', None, int(stall_s * 1000), 'worker', 'no answer (worker died or exceeded the wall-clock backstop)')
+            pending.clear()
+            close_pool()
+        else:
+            time.sleep(0.02)
+
+
 def close_pool():
     global _pool
     if _pool is not None:
@@ -364,7 +392,7 @@ def ladder_pass(vcs, todo, axioms_of, ladders, timeout_ms=10000):
             jobs.append(('%s#%d' % (vc.name, k), smt2, timeout_ms, True))
     byname = {vc.name: vc for vc in vcs}
     best = {}
-    for name, res, model, ms, solver, reason in pool().imap_unordered(_check_ground, jobs):
+    for name, res, model, ms, solver, reason in run_jobs(_check_ground, jobs, timeout_ms * WALL_FACTOR / 1000.0 + 30):
         vname, k = name.rsplit('#', 1)
         vc = byname[vname]
         vc.ms = (vc.ms or 0) + ms
@@ -392,9 +420,10 @@ def discharge(vcs, axioms_of, tier='quick', both=False, ladders=None):
     p = pool()
     first_ms = int(os.environ.get('PYVC_Z3_FIRST_MS', '5000'))
     jobs = [(n, t, first_ms, m) for n, t, _, m in jobs]
-    for name, res, model, ms, solver, reason in p.imap_unordered(_check_z3, jobs):
+    for name, res, model, ms, solver, reason in run_jobs(_check_z3, jobs, first_ms * WALL_FACTOR / 1000.0 + 30):
         vc, _ = todo[name]
         vc.result, vc.model, vc.ms, vc.solver, vc.reason = res, model, ms, solver, reason
+    p = pool()
     # portfolio: the e-matching proofs are sensitive to the solver's internal term order; an obligation that is
     # not decided quickly is re-tried under several seeds / arithmetic back ends in parallel.  Any `unsat` is a proof.
     open_names = {n for n, (vc, _) in todo.items() if vc.result == 'unknown'}
@@ -415,6 +444,7 @@ def discharge(vcs, axioms_of, tier='quick', both=False, ladders=None):
                     pending.append((p.apply_async(_check_z3, (('%s|focus%d' % (name, depth), to_smt2(fh, vc.goal, axioms_of.get(vc.func, ())),
                                                                 Z3_TIMEOUT_MS, False),)), 'z3focus'))
             pending.append((p.apply_async(_check_cvc5, ((name + '|c', smt2, CVC5_TIMEOUT_MS, False),)), 'cvc5'))
+        last_progress = time.time()
         while pending and open_names:
             still = []
             progressed = False
@@ -436,7 +466,11 @@ def discharge(vcs, axioms_of, tier='quick', both=False, ladders=None):
                     vc.ms = (vc.ms or 0) + ms
                     open_names.discard(name)
             pending = still
-            if not progressed:
+            if progressed:
+                last_progress = time.time()
+            elif time.time() - last_progress > max(Z3_TIMEOUT_MS, CVC5_TIMEOUT_MS) * WALL_FACTOR / 1000.0 + 60:
+                break                 # a worker died: what it was working on stays `unknown`
+            else:
                 time.sleep(0.05)
         if pending:
             close_pool()          # kill the members that are still running
@@ -448,7 +482,7 @@ def discharge(vcs, axioms_of, tier='quick', both=False, ladders=None):
     for name, (vc, smt2) in todo.items():
         if (vc.result == 'unknown' and getattr(vc, 'second', None) is None) or both:
             jobs2.append((name, smt2, CVC5_TIMEOUT_MS, False))
-    for name, res, model, ms, solver, reason in p.imap_unordered(_check_cvc5, jobs2):
+    for name, res, model, ms, solver, reason in run_jobs(_check_cvc5, jobs2, CVC5_TIMEOUT_MS / 1000.0 + 40):
         vc, _ = todo[name]
         vc.second = (res, ms, solver)
         if vc.result == 'unknown' and res in ('sat', 'unsat'):
@@ -471,6 +505,6 @@ def check_consistency(hyps_sets, timeout_ms=5000):
             s.add(h)
         jobs.append((name, s.to_smt2(), timeout_ms, False))
     out = {}
-    for name, res, model, ms, solver, reason in pool().imap_unordered(_check_z3, jobs):
+    for name, res, model, ms, solver, reason in run_jobs(_check_z3, jobs, timeout_ms * WALL_FACTOR / 1000.0 + 30):
         out[name] = res
     return out
